@@ -815,6 +815,10 @@ def gen_trace(rng, check, population, tier, cat):
                 # well: "same bytes twice" and "depends only on arguments
                 # and the switch" must survive a zone jump between calls
                 prog.append({'op': 'tz', 'zone': r.choice(ZONES)})
+                ts = [o for o in cat if o.get('op') == 'enc' and
+                      o.get('fn') == 'timestamp']
+                if ts:   # and something that carries a timestamp right after
+                    prog.append(r.choice(ts))
                 continue
             if check in ('C16', 'C12', 'C15') and c < (
                     0.30 if check != 'C15' else 0.34) and prog:
